@@ -22,22 +22,22 @@ CHECKS = {
 
  "C02": ("exploration", "vcheck",
    "model-based property testing of operation histories (proptest, shrinking; thorough: libFuzzer target tx_hist decoding the same raw operation specs) with a model-directed size generator + exhaustive directed sweep of free-space values 0..=600; oracle = model of the wire built from serde_json encodings",
-   "Histories of enqueue_call/send_call/send_reply/send_error/flush (and flushes that are started while the transport does not accept the write and abandoned after 1..3 polls) with message sizes aimed (by a model of the 256-byte-step write buffer) at every free-space value 0..=600, the exact-fit branch and multi-step spans, with refused messages injected anywhere and payloads that walk the serde data model (every variant kind incl. struct variants whose fields are all skipped, non-finite floats, 128-bit integers, escaped variant names and chars, integer / char keys); the transport's record (one entry per write call) must equal the model's list of writes byte for byte.",
+   "Histories of enqueue_call/send_call/send_reply/send_error/flush (and flushes that are started while the transport does not accept the write and abandoned after 1..3 polls) with message sizes aimed (by a model of the 256-byte-step write buffer) at every free-space value 0..=600, the exact-fit branch and multi-step spans, with refused messages injected anywhere and payloads that walk the serde data model (every variant kind incl. struct variants whose fields are all skipped, non-finite floats, 128-bit integers, escaped variant names and chars, integer / char keys); the transport's record (one entry per write call) must equal the model's list of writes byte for byte. Histories also contain chains (chain_call / append, ended by a refused call, sent or dropped unsent, in front of and behind other enqueued messages) and messages of 3..40 KB (a queue of tens of kilobytes is still one write); payloads also carry newtype-struct keys, values written with collect_str (pieces through write_str / write_char / the formatting machinery) and std network addresses.",
    "Trusted: serde_json::to_vec as the reference encoding of a message (C03 checks the serializer itself); the capturing write half. The buffer model is used for aiming only.",
    "§3 C02"),
  "C03": ("exploration", "vcheck",
    "differential testing against serde_json::to_vec: exhaustive enumeration of scalar sub-domains (all Unicode scalars, escape pairs/triples, 8/16-bit integers, all f32 in thorough) + proptest trees over the whole serde data model + exhaustive buffer-length sweeps",
-   "Through the cfg(zlink_verif) hook every encode is compared byte for byte with serde_json; finite sub-domains are enumerated completely, the tree space is sampled with shrinking; refused key kinds must give an error; every buffer length 0..=L+2 is tried for sampled values and sampled trees also travel the public send path at dialled fill positions.",
+   "Through the cfg(zlink_verif) hook every encode is compared byte for byte with serde_json; finite sub-domains are enumerated completely, the tree space is sampled with shrinking; refused key kinds must give an error; every buffer length 0..=L+2 is tried for sampled values and sampled trees also travel the public send path at dialled fill positions. The tree also calls the provided Serializer methods (collect_str with multi-piece Display values, collect_seq with and without size hint, collect_map), asks is_human_readable and contains std network addresses, as values and as keys.",
    "Trusted: serde_json's compact output as the specification; the hook is a plain re-export of the private to_slice.",
    "§3 C03"),
  "C07": ("exploration", "vcheck",
    "property-based testing over (frames, chunking, Pending schedule, cancellation set) with a hand-rolled executor that owns every poll; exhaustive subsets of suspension points for small streams and every-k-th-poll cancellation; oracle = no-cancellation reference model",
-   "The harness polls receive futures by hand and drops them at generated suspension points; the sequence of results must equal the reference decode of each frame. All subsets of <= 12 suspension points of 30 small streams and every k for byte-at-a-time delivery are enumerated. Two further lanes: (mixed forms) reply frames are received through a generated alternation of receive_reply and chain reply streams, each abandoned after 0..2 Pending polls, so the receive that follows an abandoned one is of another kind; (through the server) C08 scenarios with a poll of Server::run after every delivery, where the server itself drops all pending receives whenever another select branch wins, judged by the sequential model.",
+   "The harness polls receive futures by hand and drops them at generated suspension points; the sequence of results must equal the reference decode of each frame. All subsets of <= 12 suspension points of 30 small streams and every k for byte-at-a-time delivery are enumerated. Two further lanes: (mixed forms) reply frames are received through a generated alternation of receive_reply and chain reply streams, each abandoned after 0..2 Pending polls, so the receive that follows an abandoned one is of another kind; (through the server) C08 scenarios with a poll of Server::run after every delivery, where the server itself drops all pending receives whenever another select branch wins, judged by the sequential model. In one case in four the connection halves are put together with Connection::join and split again after every abandoned receive and before some receives.",
    "Trusted: the simulated read half is itself cancel safe; reference as in C01. Abandonment close to the buffer limit is exercised by C17 (lowered limit).",
    "§3 C07"),
  "C05": ("exploration", "vcheck",
    "exhaustive enumeration of call objects (10 method templates x 8 flag sets x explicit false x 0..2 unknown members x every member permutation) + proptest lanes for re-spelled texts (escapes in member names / values, white space), encodings through serde_json and through zlink's own serializer, derived error enums x member orders x {absent, null, {}}, Reply<T>, unit-output proxy methods; oracles: reference decode of the method type alone (differential), hand-written expected encodings, round trip, permutation invariance",
-   "Every permutation of every envelope in the grammar is decoded as Call<M> and compared with the decode of M from the same object without the flags (flags as written, hidden from M, other members passed through); encodings are compared with hand-written expectations via serde_json and via the send path; unknown members also get generated names (1..60 bytes of ASCII and 2-4-byte characters, raw or \\u-escaped); every value of 4 derived error enums and the standard service errors round-trips from every member order and, when field-less, from absent / null / {} parameters (also through receive_reply); every variant of every enum of a generated corpus (unit / struct variants, renamed and raw-identifier fields, options, borrowed fields, lists, maps, nested structs, interface names with dashes and digits) encodes - through serde_json and through send_error - to the document its declaration denotes and decodes from 4..8 spellings to the value it was written from, also through receive_reply; unit-output proxy methods accept all three spellings.",
+   "Every permutation of every envelope in the grammar is decoded as Call<M> and compared with the decode of M from the same object without the flags (flags as written, hidden from M, other members passed through); encodings are compared with hand-written expectations via serde_json and via the send path; unknown members also get generated names (1..60 bytes of ASCII and 2-4-byte characters, raw or \\u-escaped); every value of 4 derived error enums and the standard service errors round-trips from every member order and, when field-less, from absent / null / {} parameters (also through receive_reply); every variant of every enum of a generated corpus (unit / struct variants, renamed and raw-identifier fields, options, borrowed fields, lists, maps, nested structs, interface names with dashes and digits) encodes - through serde_json and through send_error - to the document its declaration denotes and decodes from 4..8 spellings to the value it was written from, also through receive_reply; unit-output proxy methods accept all three spellings. Method types also include plain structs with 1, 3 and 5 own members.",
    "Trusted: serde's derive for user-defined method types as the reference for what the method type accepts; hand-written expected encodings next to each generated value. Error-enum shapes: 4 compiled-in enums plus a generated corpus (100 enums quick, 400 thorough) compiled with the ReplyError derive, whose expected wire names / parameter names / values come from the generator's own table.",
    "§3 C05"),
  "C08": ("exploration", "vcheck",
@@ -47,7 +47,7 @@ CHECKS = {
    "§3 C08"),
  "C09": ("fault_enumeration", "vcheck",
    "fault injection into the deterministic server simulation: property-based generation of scenarios with faulty connections + exhaustive placement of every fault kind at every script position / every k for EOF, read error and write failure; relational oracle (same scenario re-run with the faulty connections absent, healthy outputs byte-identical at every observation) + reference model + liveness probe connection",
-   "Faults (oversized messages - a well-formed call 0..2000 bytes beyond the receive limit, injected in a second build whose limit the cfg(zlink_verif_small_buf) hook lowers to 83*256 bytes - and 8 fixed kinds of bad frame - garbage, invalid UTF-8, wrong shape, unknown method, wrong types, missing parameter, ill-typed flag, a valid call followed by more bytes in the same frame - and generated undecodable frames of 0..900 bytes with multi-byte characters at every offset, at any position, truncated frame then EOF, EOF / transport read error anywhere, write failure from the k-th write) are placed in one or two of 1..4 connections under generated global event orders; every healthy connection must receive byte-identical frames at every quiescent point compared with a second run in which the faulty connections do not exist, must equal the sequential model, and a connection that arrives after all faults must be served; Server::run() must stay pending.",
+   "Faults (oversized messages - a well-formed call 0..2000 bytes beyond the receive limit, injected in a second build whose limit the cfg(zlink_verif_small_buf) hook lowers to 83*256 bytes - and 8 fixed kinds of bad frame - garbage, invalid UTF-8, wrong shape, unknown method, wrong types, missing parameter, ill-typed flag, a valid call followed by more bytes in the same frame - and generated undecodable frames of 0..900 bytes with multi-byte characters at every offset, at any position, truncated frame then EOF, EOF / transport read error anywhere, write failure from the k-th write) are placed in one or two of 1..4 connections under generated global event orders; every healthy connection must receive byte-identical frames at every quiescent point compared with a second run in which the faulty connections do not exist, must equal the sequential model, and a connection that arrives after all faults must be served; Server::run() must stay pending. Blank frames (a lone terminator, white space only) are a fault kind too. A connection that carries on behind an undecodable frame is accepted (the statement says 'at most that connection') as long as no call is handled twice or out of order and a well-formed reply-expecting call is not skipped without an answer.",
    "Trusted: as C08. A peer that closes in the middle of a frame makes zlink drop the complete frames read together with the partial one; no listed property demands those replies, so a faulty connection is only checked for consistency (a prefix relation with its model, nothing foreign). The oversized-message fault is covered by C17, not here.",
    "§3 C09"),
  "C10": ("exploration", "vcheck",
@@ -57,7 +57,7 @@ CHECKS = {
    "§3 C10"),
  "C11": ("exploration", "vcheck",
    "property-based testing of chains / streaming calls whose items are held while later ones are obtained (proptest, shrinking) + directed sweep of every batch length 200..=1100 bytes; oracle = content snapshot + mutual address consistency of the held slices, run under a harness allocator that poisons and quarantines freed buffer-sized blocks and always moves on realloc; known-finding lane with a fixed witness",
-   "2..6 replies with borrowed string fields (success and error parameters, lengths dialled around the 256-byte steps) are received through Connection::chain_call / a `more` call; every yielded &str is kept and re-read after each later item: its bytes must equal the snapshot and all held slices must lie in one buffer at the offsets of their frames. One reply in ten is a top-level failure of the exchange (service-error reply, undecodable frame, peer close): the stream must report it and end with the held items intact. The class is a function of the input alone: class B = a transport read ends exactly at the end of a non-final reply (a chunk ends there or the reply ends at a multiple of 256) - the known finding replystream-item-across-read (witness replayed on every run, cases excluded by construction and counted); every other input is class A and is judged, whenever the implementation chooses to read.",
+   "2..6 replies with borrowed string fields (success and error parameters, lengths dialled around the 256-byte steps) are received through Connection::chain_call / a `more` call; every yielded &str is kept and re-read after each later item: its bytes must equal the snapshot and all held slices must lie in one buffer at the offsets of their frames. One reply in ten is a top-level failure of the exchange (service-error reply, undecodable frame, peer close): the stream must report it and end with the held items intact. The class is a function of the input alone: class B = a transport read ends exactly at the end of a non-final reply (a chunk ends there or the reply ends at a multiple of 256) - the known finding replystream-item-across-read (witness replayed on every run, cases excluded by construction and counted); every other input is class A and is judged, whenever the implementation chooses to read. The exchange may also end with a transport read error while items are held.",
    "Trusted: native execution - stale memory is made observable by the poisoning / quarantining allocator and the address check rather than by a memory-model tool. Only values borrowed through the reply stream are covered: for the plain receive methods the borrow checker already forbids a second receive while a borrow lives.",
    "§3 C11"),
  "C12": ("exploration", "corpus12",
@@ -77,22 +77,22 @@ CHECKS = {
    "§3 C14"),
  "C15": ("exploration", "corpus15",
    "generated-program testing through the whole tool chain: a seeded generator emits IDL trees (names with acronyms, digits, camelCase / snake_case / kebab spellings, Rust keywords; every type constructor; non-recursive, collision-free), zlink parses the rendered text, zlink_codegen (as a library) generates a Rust module, which is compiled against /repo together with a harness-written driver and run against a scripted socket; oracle = call frames, reply / error / custom-type round trips computed from the IDL tree; known-finding lane with witness",
-   "40 (thorough 300) generated interfaces: each generated module must compile; for every method the frame on the wire must equal {method: '<interface>.<IDL name>', parameters: {IDL names: values of the declared shapes}}, a reply spelled with the IDL output names must decode and re-encode identically, every IDL error must come back as the method error and re-encode identically, every custom struct / enum value spelled as in the IDL must round-trip.",
+   "40 (thorough 300) generated interfaces: each generated module must compile; for every method the frame on the wire must equal {method: '<interface>.<IDL name>', parameters: {IDL names: values of the declared shapes}}, a reply spelled with the IDL output names must decode and re-encode identically, every IDL error must come back as the method error and re-encode identically, every custom struct / enum value spelled as in the IDL must round-trip. Name pools include a digit followed by a lower-case letter (Sha256sum, Get2fa); types nest up to three levels (five systematic three-level wrappers, one random field in five).",
    "Trusted: the driver's coupling to codegen's Rust identifiers (heck snake / Pascal of the IDL names, r# for keywords, trailing underscore for self / super / crate) - identifiers are not part of the property, JSON spellings are. Values in scripted replies are escape-free strings. Comparisons are modulo null members.",
    "§3 C15"),
  "C16": ("exploration", "corpus16",
    "generated-program testing: a seeded generator emits modules of structs / unit enums / error enums with the introspection derives (every entry of the Rust->Varlink mapping table, wrappers, collections, nested custom and inline types, lifetimes, raw-identifier fields, doc comments in both forms) plus the expected description; the corpus is compiled against /repo (diagnostics mapped to the generated module) and a runner dumps TYPE / CUSTOM_TYPE / VARIANTS through the public accessors and the render -> parse round trip of an interface assembled from them; oracle = expectation computed from the declaration by the harness's own mapping table; known-finding lanes with witness",
-   "60 (thorough 500) generated modules, 5-6 derived items each: the derived descriptions must list exactly the declared fields / variants in order under their Rust names with the expected Varlink types and the doc texts as comments; the interface assembled from a module's descriptions must render to text that parses back equal (library == and deep compare) and re-renders to an equal description. Modules with a directly nested Option or a documented variant in a multi-variant unit enum are attributed to the two known findings for the round-trip part only.",
+   "60 (thorough 500) generated modules, 5-6 derived items each: the derived descriptions must list exactly the declared fields / variants in order under their Rust names with the expected Varlink types and the doc texts as comments; the interface assembled from a module's descriptions must render to text that parses back equal (library == and deep compare) and re-renders to an equal description. Modules with a directly nested Option or a documented variant in a multi-variant unit enum are attributed to the two known findings for the round-trip part only. Doc texts include general punctuation, arrows and other non-ASCII text; documented Type structs are used inline as field types.",
    "Trusted: the harness's own Rust-type -> Varlink-type table (written from the statement). External-crate impls (uuid, chrono, url, ...) are not in the cargo cache and not covered. Comments inside inline types are ignored in the round trip (not listed by the property).",
    "§3 C16"),
  "C06": ("exploration", "vcheck",
    "model-based property testing of chains (proptest, shrinking; thorough: libFuzzer target chain_rx decoding the same raw values): generated flag sequences + conforming server scripts + trailing frames + chunkings, stream polled by hand; exhaustive enumeration of all flag sequences up to length 4 x 3 script families x 3 trailing counts x 6 chunkings; oracle = owed-reply model + reference decode + transport poll counter",
-   "Chains of 1..6 calls over {plain, oneway, more} (call sizes dialled so that the enqueued calls end before / at / after the 256-byte steps of the write buffer; success replies with or without a `parameters` member; one final reply in twenty is a top-level failure - undeclared error, standard service error, not a reply - after which the stream may stop or go on, but must not treat the failed reply as if it had not been its call's final one) are sent through Connection::chain_call/append/send against a scripted transport that then stays silent; the single transport write must equal the calls' reference encodings, the stream must yield exactly the owed replies (as the reference classifies each frame) and then None without polling the transport, and a later receive_reply must still find every trailing frame.",
+   "Chains of 1..6 calls over {plain, oneway, more} (call sizes dialled so that the enqueued calls end before / at / after the 256-byte steps of the write buffer; success replies with or without a `parameters` member; one final reply in twenty is a top-level failure - undeclared error, standard service error, not a reply - after which the stream may stop or go on, but must not treat the failed reply as if it had not been its call's final one) are sent through Connection::chain_call/append/send against a scripted transport that then stays silent; the single transport write must equal the calls' reference encodings, the stream must yield exactly the owed replies (as the reference classifies each frame) and then None without polling the transport, and a later receive_reply must still find every trailing frame. One call in twenty is 6..40 KB, so that some chains exceed any plausible internal chunk size and must still be one write.",
    "Trusted: conforming server scripts only (non-conforming servers are outside the statement); reply classification reference as in C04; hand polling with a no-op waker (a Pending with an exhausted script is 'waits forever').",
    "§3 C06"),
  "C17": ("exploration", "vcheck",
    "exhaustive size sweep (every inbound frame size 1..=limit+512 x chunk sizes, outbound sizes around every 256-byte step and the limit from several fill positions) under a hook-lowered limit of 83*256 bytes + production-limit inbound cases (100 MiB -257/-256/-2/-1/+0/+1/+300, unterminated over/under); threshold oracle from the statement + byte-exact delivery",
-   "Every inbound frame size up to limit+512 is received under 4-6 chunk sizes (terminated, unterminated+EOF, unterminated+waiting, behind pipelined prefixes) and every relevant outbound size is sent from an empty queue and behind an enqueued message: below the limit => intact, above => BufferOverflow with nothing of the refused message written, the queued message and a later message intact; the receive buffer (inferred from the slices offered to the read half) never exceeds the limit and no transport write is longer than it; a refused send has written nothing at the moment of refusal, also when it is a send_* behind enqueued messages; frames within 700 bytes of the limit are also received with the pending receive abandoned once mid-frame. The production build confirms the inbound thresholds at 100 MiB.",
+   "Every inbound frame size up to limit+512 is received under 4-6 chunk sizes (terminated, unterminated+EOF, unterminated+waiting, behind pipelined prefixes) and every relevant outbound size is sent from an empty queue and behind an enqueued message: below the limit => intact, above => BufferOverflow with nothing of the refused message written, the queued message and a later message intact; the receive buffer (inferred from the slices offered to the read half) never exceeds the limit and no transport write is longer than it; a refused send has written nothing at the moment of refusal, also when it is a send_* behind enqueued messages; frames within 700 bytes of the limit are also received with the pending receive abandoned once mid-frame. The production build confirms the inbound thresholds at 100 MiB. A further lane fills the queue to within two growth steps of the limit and then enqueues / sends every total around it.",
    "Trusted: the small-limit build differs from production only in the constant (cfg zlink_verif_small_buf; 83*256 so that doubling strategies do not land on it); size == limit is recorded but not judged; outbound near 100 MiB is unreachable (quadratic re-serialisation) and covered under the lowered limit only.",
    "§3 C17"),
  "C18": ("exploration", "vcheck",
@@ -102,12 +102,12 @@ CHECKS = {
    "§3 C18"),
  "C19": ("exploration", "vcheck",
    "generated end-to-end scenarios over real Unix sockets under tokio (current-thread, multi-thread) and smol: socketpairs and bound / inherited-descriptor listeners with 1..8 concurrent connections, message sizes 1 B..1 MiB in both directions at once with generated reader pacing; deterministic cancellation recipe (send polled by hand until Pending with the peer reading a generated number of bytes, dropped, second send) and cancellation histories (2..6 sends on one connection, any of them abandoned after 1..4 polls); zlink's own Server on a real listener in its own thread serving 1..6 real clients of either runtime (calls, declared errors, oneway calls, pipelined chains, streaming calls); oracle = sent sequence == received sequence byte for byte (position-dependent pattern), distinct connection ids, peer byte stream == whole frames, each at most once, in order, completed sends exactly once; served clients get exactly the service's replies",
-   "Each scenario moves generated call and reply sequences through two zlink connections joined by a real socket and compares index, length and every byte; the cancellation scenarios compare the peer's raw byte stream with frame(A) NUL frame(B) NUL, the cancellation histories demand a subsequence of the sent frames that contains every completed send; the served scenarios run Server::run over a bound or inherited listener under tokio or smol against clients under tokio (current / multi-thread) or smol and compare every reply (ids, item sequence numbers, pattern bytes, continues flags). Sizes beyond the kernel socket buffer force partial writes; the schedule itself is not owned, so this is the weakest claim of the set: one kernel schedule per scenario.",
+   "Each scenario moves generated call and reply sequences through two zlink connections joined by a real socket and compares index, length and every byte; the cancellation scenarios compare the peer's raw byte stream with frame(A) NUL frame(B) NUL, the cancellation histories demand a subsequence of the sent frames that contains every completed send; the served scenarios run Server::run over a bound or inherited listener under tokio or smol against clients under tokio (current / multi-thread) or smol and compare every reply (ids, item sequence numbers, pattern bytes, continues flags). Sizes beyond the kernel socket buffer force partial writes; the schedule itself is not owned, so this is the weakest claim of the set: one kernel schedule per scenario. In cancellation histories the peer may leave what an abandoned send wrote in the kernel, so that the next attempt finds the socket full and makes no progress (directed double-abandon histories on both runtimes).",
    "Trusted: the kernel and the two runtimes; each scenario runs under a deadline whose expiry is reported as inconclusive (exit 2). Violations are re-run 5 times on replay.",
    "§3 C19"),
  "C20": ("exploration", "vcheck",
    "model-based property testing of operation lists (proptest, shrinking) over {set, set the value that is already current, set through a clone, subscribe, poll subscriber i, clone, drop original} + exhaustive enumeration of every list up to length 7 over {set, set-same, subscribe, poll 0, poll 1} (thorough: libFuzzer target notified, one byte per operation), executed against both zlink_tokio::notified and zlink_smol::notified with hand polling; oracle = subscriber model (increasing subsequence of the values set after subscribing, up to date at every Pending, no end while a state exists, end after all states dropped) + one-shot cases",
-   "Every generated and enumerated interleaving of writers and (lagging) readers is run on both runtimes: each subscriber must see a subsequence of the values set after it subscribed, marked continues = true, be up to date whenever a poll returns Pending (last value = last value set, and something received since the last time it was up to date if anything was set), have been woken (its own counting waker) by the next set or by the end of the state if its last poll returned Pending, never see the end while a state or clone exists and see it (with the latest value delivered) once all are dropped; set must never fail or panic; one-shot notification yields exactly one item marked continues = false, then the end (just the end if the notifier was dropped).",
+   "Every generated and enumerated interleaving of writers and (lagging) readers is run on both runtimes: each subscriber must see a subsequence of the values set after it subscribed, marked continues = true, be up to date whenever a poll returns Pending (last value = last value set, and something received since the last time it was up to date if anything was set), have been woken (its own counting waker) by the next set or by the end of the state if its last poll returned Pending, never see the end while a state or clone exists and see it (with the latest value delivered) once all are dropped; set must never fail or panic; one-shot notification yields exactly one item marked continues = false, then the end (just the end if the notifier was dropped). A subscriber may drop its stream at any point; the others and later subscribers must not notice.",
    "Trusted: hand polling - a Pending is read as 'queue empty' (true for both channel implementations); every subscriber is polled with its own counting waker, so that a parked subscriber that is not woken by a set / by the end of the state is reported, but multi-threaded use is outside this check.",
    "§3 C20"),
 }
